@@ -234,6 +234,9 @@ impl Check for C17 {
     fn required_counters(&self, _tier: Tier) -> Vec<&'static str> {
         vec!["target:RegisterAddress::from_hex", "target:decrypt_private_key", "target:PortRange::validate", "target:NodeRegistry::from_json", "target:increment_port_option", "wallet:authentic-ciphertexts"]
     }
+    fn miri_lane(&self, tier: Tier) -> Option<(Vec<&'static str>, usize, usize)> {
+        if tier == Tier::Thorough { Some((vec!["record", "address", "amount", "message"], 8, 300)) } else { None }
+    }
     fn run_case(&self, cx: &mut Cx) {
         let mut t = T { cx };
         let rng_len = |t: &mut T| -> usize { *[0usize, 1, 2, 7, 8, 15, 16, 19, 20, 21, 31, 32, 33, 47, 48, 49, 79, 80, 81, 96, 200].choose(&mut t.cx.rng).expect("nonempty") };
